@@ -400,13 +400,13 @@ def privSupportedB (P : Program) (priv : List Pred) (J : FinInterp) : Option Boo
       some (ok2 && (J.holds q.symbol ds == supported))) (some true)
     some (ok && good)) (some true)
 
-/-- read the right program's clashing private predicates through their `_p` copies -/
-def renamedView (clash : List Pred) (J : FinInterp) : FinInterp :=
+/-- read the right program's clashing private predicates through their renamed copies -/
+def renamedView (clash : List (Pred × String)) (J : FinInterp) : FinInterp :=
   { J with preds := J.preds.filterMap fun e =>
-      if clash.contains ⟨e.1, e.2.1⟩ then none
+      if clash.any (fun x => x.1 == (⟨e.1, e.2.1⟩ : Pred)) then none
       else
-        match clash.find? (fun q => q.symbol ++ "_p" == e.1 && q.arity == e.2.1) with
-        | some q => some (q.symbol, e.2.1, e.2.2)
+        match clash.find? (fun x => renamedPred x.1 x.2 == (⟨e.1, e.2.1⟩ : Pred)) with
+        | some x => some (x.1.symbol, e.2.1, e.2.2)
         | none => some e }
 
 open Anthem.Asp in
@@ -465,11 +465,8 @@ def cexExternal (t : ExternalTask) (ps : List Problem) (seed tries : Nat) : Sexp
   if fs.any (fun F => evalCostW base F > 400000) || (PL0 ++ t.program).any (fun r => r.vars.length > 3) then
     .list [.atom "skipped"] else
   let ins := t.userGuide.inputs
-  let clash := t.specPrivate.filter (· ∈ t.progPrivate)
-  let allPreds := ext (ext (ext (ext PL0.preds t.program.preds) ins) (clash.map fun q => ⟨q.symbol ++ "_p", q.arity⟩)) (specPreds S)
-  -- the known finding: a renamed private predicate collides with a predicate of that name
-  if clash.any (fun q => (ext (ext PL0.preds t.program.preds) (specPreds S)).contains ⟨q.symbol ++ "_p", q.arity⟩) then
-    .list [.atom "skipped-known-rename-clash"] else
+  let clash := t.clashMap
+  let allPreds := ext (ext (ext (ext PL0.preds t.program.preds) ins) (clash.map fun x => renamedPred x.1 x.2)) (specPreds S)
   let fwd := t.direction == .universal || t.direction == .forward
   let bwd := t.direction == .universal || t.direction == .backward
   let ugs := (t.userGuide.formulas.filter fun a => a.role == .assumption).map (SAnn.replacePlaceholders m)
@@ -491,8 +488,8 @@ def cexExternal (t : ExternalTask) (ps : List Problem) (seed tries : Nat) : Sexp
       let privSecond := if mode == 2 || !isProg then t.specPrivate else t.progPrivate
       let (J2, rc) := if isProg then growN second privSecond 3 J1 rb else (J1, rb)
       let copyOf := fun (e : String × Nat × List (List Dom)) =>
-        (clash.find? (fun q => q.symbol ++ "_p" == e.1 && q.arity == e.2.1)).bind fun q =>
-          J2.preds.find? (fun e' => e'.1 == q.symbol && e'.2.1 == q.arity)
+        (clash.find? (fun x => renamedPred x.1 x.2 == (⟨e.1, e.2.1⟩ : Pred))).bind fun x =>
+          J2.preds.find? (fun e' => e'.1 == x.1.symbol && e'.2.1 == x.1.arity)
       let newPreds := J2.preds.map fun e => ((copyOf e).map fun e' => (e.1, e.2.1, e'.2.2)).getD e
       let J3 : FinInterp := { J2 with preds := newPreds }
       if mode == 3 then
